@@ -284,6 +284,9 @@ func (g genCtx) key(t *rapid.T) string {
 		}
 		g.rec.Excluded(kfQuoted) // region of the open finding: a plain key is used instead
 	}
+	if rapid.IntRange(0, 9).Draw(t, "twin") < 4 {
+		return rapid.SampledFrom(twinPool).Draw(t, "tkey") // small pool: collisions within one process
+	}
 	return rapid.SampledFrom(plainKeys).Draw(t, "key")
 }
 
@@ -531,11 +534,21 @@ func genSteps(t *rapid.T, v any, maxDepth int, avoid func(string) bool) []Step {
 func genPathCase(t *rapid.T, rec *ev.Rec, known *kf.File) PathCase {
 	g := genCtx{rec: rec, avoid: avoider(rec, known), exoticOK: !known.Open(kfQuoted)}
 	val := g.val(t, rapid.IntRange(1, 4).Draw(t, "vdepth"))
-	return PathCase{
+	c := PathCase{
 		Val:   val,
 		Bind:  rapid.SampledFrom(binds).Draw(t, "bind"),
 		Steps: genSteps(t, val.Go(), 4, g.avoid),
 	}
+	if len(c.Steps) > 0 {
+		if rapid.IntRange(0, 9).Draw(t, "padded") < 2 {
+			c.Pad = rapid.IntRange(1, 3).Draw(t, "pad")
+		}
+		// twins of the keys on the path (present or not) are resolved first, mostly
+		if partners := partnerPaths(c.Steps, 2); len(partners) > 0 && rapid.IntRange(0, 9).Draw(t, "partner") < 8 {
+			c.Pre = partners
+		}
+	}
+	return c
 }
 
 // genSeq draws a history of up to 30 ops; a model is run alongside only to aim reads at names
